@@ -84,7 +84,18 @@ def gen_cases(desc, env):
             syntax = rnd.choice(['MATH', 'MATH', 'ASCII'])
             style = rnd.choice(STYLES)
             cases.append(rc.parse_case(tree, syntax, rnd, style, 'random', ranges=4, gen=False))
+    # normal usage keeps one Parser alive: a third of the inputs is parsed by a parser that has already seen a multi-line,
+    # multi-byte MATH text (and an ASCII one); tree and ranges must be the same as with a fresh parser
+    for k, cs in enumerate(cases):
+        if k % 3 == 0:
+            warm = [{'op': 'rs.parse', 'text': rnd.choice(WARMUP), 'syntax': 'MATH', 'obj': 'h', 'gen': False},
+                    {'op': 'rs.parse', 'text': 'X1 \\union\nX2', 'syntax': 'ASCII', 'obj': 'h', 'gen': False}]
+            cs['ops'] = warm[:rnd.choice([1, 2])] + [dict(cs['ops'][0], obj='h')]
+            cs['meta']['reused_parser'] = True
     return cases
+
+
+WARMUP = ['X1∪\nX2\n∩X3', 'ℬ(X1)×\n\nℬ(X2)', '∀ξ∈X1\n ξ∈X1', 'D{ξ∈X1 |\n∃α∈X1 α=ξ}\n', '((', 'X1∪\n']
 
 
 def compare(res, cs, ev, lib, ref, spans, path, bad, ambiguous):
@@ -130,7 +141,7 @@ def judge(res, cs, cr):
     if not core.std_death_checks(res, PROP, cs, cr):
         return
     meta = cs['meta']
-    ev = cr.events[0]
+    ev = cr.events[-1]
     tree = meta['tree']
     text = meta['text']
     bad = []
@@ -143,7 +154,7 @@ def judge(res, cs, cr):
         if ev['syn'] != meta['syntax']:
             bad.append(('syntax-field', f"parser.syntax = {ev['syn']}"))
         if not bad and not ambiguous and 'found' in ev:
-            for rng_, got in zip(cs['ops'][0]['ranges'], ev['found']):
+            for rng_, got in zip(cs['ops'][-1]['ranges'], ev['found']):
                 exp = innermost(tree, meta['spans'], rng_)
                 g = None if got is None else (got['id'], got['p'])
                 e = None if exp is None else (exp[0], exp[1])
